@@ -17,14 +17,14 @@ ENTRY = dict(
                 "is exercised by the runs (perturbation at tracker.before_unlock / inclusive.activity in thorough), not proved"),
     technique="Lean 4 proof (fork kernel, join window theorem, kernel-checked witness) + exhaustive lock-step replay",
     lean_modules=["Bpmn.Props.C05", "Bpmn.Props.EngineCurrent"],
-    families=["c05", "c05n"],
+    families=["c05", "c05d", "c05n"],
     harness_files=["c03.go"],
     exhaustive=True,
     facts_from=["Engine"],
     rule=("c05: start -> A -> inclusive fork (c conditions `b_i == 1`, optional default at list position d) -> one task per "
           "branch -> inclusive join -> Z; all c in 1..4, d in {none,0..c}, all 2^c truth assignments, branch `early` ending at "
           "its own end event (quick: none / branch 0; thorough: every branch), finishing orders = permutations of the "
-          "activated branches (quick: a third when more than two); c05n: seeded programs nesting inclusive, parallel and "
+          "activated branches (quick: a third when more than two); c05d: 2..4 activated branches running straight from the fork to the join (no activity), optionally one branch with a task, repeated with and without schedule perturbation (the join's first arrival races the tracker); c05n: seeded programs nesting inclusive, parallel and "
           "exclusive blocks; non-trivial = judged run; distinct by parameters/program and history"),
     trusted_base=TB_COMMON + ["whole-process quiescence detection via runtime.Stack goroutine states"],
     assumptions=["driver actions are issued at quiescence, so the flow tracker's picture is current when the gateway consults it"],
